@@ -160,6 +160,106 @@ def callers_of(prog: Program, target: Func) -> list[tuple[Func, ast.Call]]:
 
 
 # ----------------------------------------------------------------------------------------
+# the label map's interface, by what its members do (not by what they are called)
+# ----------------------------------------------------------------------------------------
+
+
+def labelmap_api(prog: Program) -> dict:
+    """Roles of InstanceLabelMap's members, read from their bodies:
+      dict_attr  the attribute that __init__ binds to an empty dict and an adder stores into
+      add        methods storing  self.<dict>[p] = ref
+      has_pred   methods returning  x in self.<dict>          (also .keys())
+      has_ref    methods returning  x in self.<dict>.values()
+      preds_of   methods returning  [k for k, v in self.<dict>.items() if v == x]
+      dict_names attribute names that read as the dict itself (dict_attr + properties returning it)
+    A member that only forwards to one of these with its own parameters (deprecated spellings) has
+    the same role."""
+    api = getattr(prog, "_labelmap_api", None)
+    if api is not None:
+        return api
+    cls = prog.cls("utils.instancelabelmap:InstanceLabelMap")
+    init = cls.methods.get("__init__")
+    cands = []
+    if init is not None:
+        for st in walk_no_nested(init.node):
+            tg = st.targets if isinstance(st, ast.Assign) else [st.target] if isinstance(st, ast.AnnAssign) and st.value is not None else []
+            val = getattr(st, "value", None)
+            isdict = isinstance(val, ast.Dict) and not val.keys or (isinstance(val, ast.Call) and dotted(val.func) == "dict" and not val.args and not val.keywords)
+            for t in tg:
+                if isdict and isinstance(t, ast.Attribute) and isinstance(t.value, ast.Name) and t.value.id == init.self_name:
+                    cands.append(t.attr)
+    roles = {"add": set(), "has_pred": set(), "has_ref": set(), "preds_of": set()}
+    dict_attr = None
+
+    def self_dict(e, m, attrs):
+        return isinstance(e, ast.Attribute) and isinstance(e.value, ast.Name) and e.value.id == m.self_name and e.attr in attrs
+
+    for m in cls.methods.values():
+        if not m.self_name:
+            continue
+        for st in walk_no_nested(m.node):
+            if isinstance(st, ast.Assign):
+                for t in st.targets:
+                    if isinstance(t, ast.Subscript) and self_dict(t.value, m, cands):
+                        roles["add"].add(m.name)
+                        dict_attr = t.value.attr
+    if dict_attr is None:
+        raise AnchorMissing(f"{cls.qual}: no method stores into a dict created by __init__ (candidates {cands})")
+    dict_names = {dict_attr}
+    for m in cls.methods.values():
+        rets = [st for st in walk_no_nested(m.node) if isinstance(st, ast.Return) and st.value is not None]
+        if m.is_property and len(rets) == 1 and self_dict(rets[0].value, m, {dict_attr}):
+            dict_names.add(m.name)
+    for m in cls.methods.values():
+        if not m.self_name or m.is_property:
+            continue
+        rets = [st for st in walk_no_nested(m.node) if isinstance(st, ast.Return) and st.value is not None]
+        ps = [p.name for p in m.call_params]
+        if len(rets) != 1 or len(ps) != 1:
+            continue
+        v = rets[0].value
+        if isinstance(v, ast.Compare) and len(v.ops) == 1 and isinstance(v.ops[0], ast.In) and isinstance(v.left, ast.Name) and v.left.id == ps[0]:
+            r = v.comparators[0]
+            if self_dict(r, m, dict_names) or (isinstance(r, ast.Call) and isinstance(r.func, ast.Attribute) and r.func.attr == "keys" and self_dict(r.func.value, m, dict_names)):
+                roles["has_pred"].add(m.name)
+            elif isinstance(r, ast.Call) and isinstance(r.func, ast.Attribute) and r.func.attr == "values" and self_dict(r.func.value, m, dict_names):
+                roles["has_ref"].add(m.name)
+        if isinstance(v, ast.ListComp) and len(v.generators) == 1:
+            g = v.generators[0]
+            it = g.iter
+            if isinstance(it, ast.Call) and isinstance(it.func, ast.Attribute) and it.func.attr == "items" and self_dict(it.func.value, m, dict_names) and isinstance(g.target, ast.Tuple) and len(g.target.elts) == 2 and all(isinstance(x, ast.Name) for x in g.target.elts):
+                k, val = g.target.elts[0].id, g.target.elts[1].id
+                if isinstance(v.elt, ast.Name) and v.elt.id == k and len(g.ifs) == 1:
+                    c = g.ifs[0]
+                    if isinstance(c, ast.Compare) and len(c.ops) == 1 and isinstance(c.ops[0], ast.Eq) and {norm(c.left), norm(c.comparators[0])} == {val, ps[0]}:
+                        roles["preds_of"].add(m.name)
+    # forwarding members: `return self.<member>(<own parameters>)` after statements without value effect
+    changed = True
+    while changed:
+        changed = False
+        for m in cls.methods.values():
+            if not m.self_name or m.is_property or any(m.name in r for r in roles.values()):
+                continue
+            body = [st for st in m.node.body if not (isinstance(st, ast.Expr) and isinstance(st.value, (ast.Constant, ast.Call)))]
+            if len(body) != 1 or not isinstance(body[0], (ast.Return, ast.Expr)):
+                continue
+            c = body[0].value
+            if not (isinstance(c, ast.Call) and isinstance(c.func, ast.Attribute) and isinstance(c.func.value, ast.Name) and c.func.value.id == m.self_name):
+                continue
+            ps = [p.name for p in m.call_params]
+            passed = [a.id for a in c.args if isinstance(a, ast.Name)] + [kw.value.id for kw in c.keywords if isinstance(kw.value, ast.Name) and kw.arg == kw.value.id]
+            if passed != ps or len(passed) != len(c.args) + len(c.keywords):
+                continue
+            for rname, names in roles.items():
+                if c.func.attr in names:
+                    names.add(m.name)
+                    changed = True
+    api = {"cls": cls, "dict_attr": dict_attr, "dict_names": dict_names, **roles}
+    prog._labelmap_api = api
+    return api
+
+
+# ----------------------------------------------------------------------------------------
 # metric objects for abstract evaluation
 # ----------------------------------------------------------------------------------------
 
@@ -411,16 +511,27 @@ class MatcherAtoms:
             atom = None
             if isinstance(l, ast.Name):
                 d = dotted(r)
-                if d and d.split(".")[-1] == "labelmap" and l.id == self.pred_var:
+                if d and d.split(".")[-1] in labelmap_api(self.prog)["dict_names"] and l.id == self.pred_var:
                     atom = "cp"
                 elif isinstance(r, ast.Call) and isinstance(r.func, ast.Attribute) and r.func.attr == "values" and not r.args:
                     d2 = dotted(r.func.value)
-                    if d2 and d2.split(".")[-1] == "labelmap" and l.id == self.ref_var:
+                    if d2 and d2.split(".")[-1] in labelmap_api(self.prog)["dict_names"] and l.id == self.ref_var:
                         atom = "cr"
                 elif isinstance(r, ast.Call) and isinstance(r.func, ast.Attribute) and r.func.attr == "keys" and not r.args:
                     d2 = dotted(r.func.value)
-                    if d2 and d2.split(".")[-1] == "labelmap" and l.id == self.pred_var:
+                    if d2 and d2.split(".")[-1] in labelmap_api(self.prog)["dict_names"] and l.id == self.pred_var:
                         atom = "cp"
+            if atom is None and isinstance(l, ast.Name) and l.id in (self.pred_var, self.ref_var):
+                # a label looked up on the other side of the map (reference among the prediction keys,
+                # prediction among the reference values): a fact of its own, tied to neither 'assigned' atom
+                d = dotted(r)
+                names = labelmap_api(self.prog)["dict_names"]
+                if d and d.split(".")[-1] in names and l.id == self.ref_var:
+                    atom = "ref-among-pred-keys"
+                elif isinstance(r, ast.Call) and isinstance(r.func, ast.Attribute) and r.func.attr in ("values", "keys") and not r.args and (dotted(r.func.value) or "").split(".")[-1] in names:
+                    atom = "ref-among-pred-keys" if (r.func.attr == "keys" and l.id == self.ref_var) else "pred-among-ref-values" if (r.func.attr == "values" and l.id == self.pred_var) else None
+                if atom:
+                    form.domains.setdefault(atom, [False, True])
             if atom:
                 return (lambda a, k=atom: not a[k]) if neg else (lambda a, k=atom: a[k])
             # membership in a local tracking set/list/dict
@@ -598,7 +709,7 @@ class MatcherAtoms:
         def has_assignment(block):
             # a sibling statement of the same block (same path condition) assigns the candidate
             for s_ in block:
-                if isinstance(s_, ast.Expr) and isinstance(s_.value, ast.Call) and isinstance(s_.value.func, ast.Attribute) and s_.value.func.attr == "add_labelmap_entry":
+                if isinstance(s_, ast.Expr) and isinstance(s_.value, ast.Call) and isinstance(s_.value.func, ast.Attribute) and s_.value.func.attr in labelmap_api(self.prog)["add"]:
                     return True
             return False
 
@@ -693,7 +804,7 @@ def matcher_loop(prog: Program, f: Func) -> tuple[ast.For, str, str, str]:
                 loops.append(n)
     if len(loops) > 1:
         # the greedy loop is the one that assigns label map entries
-        with_add = [l for l in loops if any(isinstance(c, ast.Call) and isinstance(c.func, ast.Attribute) and c.func.attr == "add_labelmap_entry" for c in ast.walk(l))]
+        with_add = [l for l in loops if any(isinstance(c, ast.Call) and isinstance(c.func, ast.Attribute) and c.func.attr in labelmap_api(prog)["add"] for c in ast.walk(l))]
         if len(with_add) == 1:
             loops = with_add
     if len(loops) != 1:
